@@ -204,7 +204,44 @@ def r03_6(ctx):
     ctx.decide('R03.6', af.qual, 'level k fills rhs[i:i+na_k] with the entries of its active functions, box of the active functions', ok or None, af.node)
 
 
+def r03_7(ctx):
+    """Level unions are exhaustive: loops that accumulate per-level contributions (set unions, block insertion,
+    right-hand side slices) have no break/continue/return that skips a level in the declared range."""
+    n = 0
+    for q in (HD + '.HDiscretization.assemble_matrix', HD + '.HDiscretization.assemble_functional'):
+        f = ctx.prog.func(q)
+        for l in [x for x in own_nodes(f.node) if isinstance(x, ast.For)]:
+            it = src(l.iter)
+            if not ('range(' in it or 'enumerate(' in it):
+                continue
+            acc = [s for s in ast.walk(l) if (isinstance(s, ast.AugAssign) and isinstance(s.op, (ast.BitOr, ast.Add)))
+                   or (isinstance(s, ast.Expr) and isinstance(s.value, ast.Call) and isinstance(s.value.func, ast.Attribute) and s.value.func.attr == 'append')
+                   or (isinstance(s, ast.Expr) and isinstance(s.value, ast.Call) and call_name(s.value) == 'insert_block')
+                   or (isinstance(s, ast.Assign) and isinstance(s.targets[0], ast.Subscript) and src(s.targets[0].value) == 'rhs')]
+            if not acc:
+                continue
+            n += 1
+            exits = [x for x in ast.walk(l) if isinstance(x, (ast.Break, ast.Continue, ast.Return)) and _nearest_for(x, f.node) is l]
+            if exits:
+                ctx.violated('R03.7', q, 'for %s in %s: %s' % (src(l.target), it, type(exits[0]).__name__.lower()), exits[0],
+                             'a level of the declared range is skipped: the hierarchical matrix needs the contribution of EVERY level in the range '
+                             '(activity of functions is not monotone in the level, so an empty intermediate level does not imply empty coarser ones)')
+            else:
+                ctx.met('R03.7', q, 'for %s in %s accumulates over the whole range' % (src(l.target), it), l, 'no early exit')
+    ctx.floor('R03.7', 'level accumulation loops', n, 4)
+
+
+def _nearest_for(node, fn):
+    p = parent(node)
+    while p is not None and p is not fn:
+        if isinstance(p, (ast.For, ast.While)):
+            return p
+        p = parent(p)
+    return None
+
+
 def run(ctx):
+    r03_7(ctx)
     r03_1(ctx)
     r03_2(ctx)
     r03_3(ctx)
